@@ -117,3 +117,21 @@ check("C05",
       design_ref="DESIGN.md 5/C05",
       level_text="exhaustive over the stated product",
       level_note="graphsync-level role confusion (processExtension) is checked in the transport harness")
+
+check("C08",
+      packages=["l2node"],
+      technique="deviation-bounded exhaustive enumeration of operation sequences (block reports, accepting/rejecting validation updates with limits around the progress, process restarts) on a real manager against a two-integer reference",
+      rule="responder channel, direction in {push=>received, pull=>queued} x initial limit 0..6 x block sizes {1,2,3}^k; default op = report next block; every op of the 8-entry menu may be substituted at every step within the deviation bound (quick k=2, depth 5, 2 deviations; thorough k=3, depth 6, 3 deviations); oracle: pause signal + DataLimitExceeded + responder paused + pause notice to the initiator exactly on the crossing report, never below the limit; resume iff new limit is 0 or > progress; reject => Failed + transport closed; limit and progress survive a restart. distinct = distinct operation logs.",
+      design_ref="DESIGN.md 5/C08",
+      level_text="exhaustive within the stated deviation bound",
+      level_note="reports arriving after the crossing while still over the limit are unconstrained (the statement only says no earlier report pauses)")
+
+check("C10",
+      packages=["l2node"],
+      technique="exhaustive enumeration of (role x channel state x restart origin x validator answer x process restart) on a real manager over recording doubles; relational before/after oracle",
+      rule="4 roles x every drivable state (10-12 per role, incl. terminal) x {local RestartDataTransferChannel, restart message from the peer} x validator answer {accept, reject, error} x {same manager, new manager on the store}; plus restart of a channel persisted in each cleanup status. Oracle: channel count, id, voucher, base cid, selector, peers, counters, indexes unchanged; exactly one re-issued request of the right kind carrying the original parameters; responders revalidate first; rejected => failed / error and nothing sent; cleanup status => only the cleanup is finished. distinct = distinct outcome classes.",
+      design_ref="DESIGN.md 5/C10",
+      level_text="exhaustive over the stated product",
+      level_note="skip-count extension, cancel-before-reopen ordering and queued extensions are checked in the transport harness")
+CHECKS["C06"]["packages"] = ["l1chan", "l2node"]
+CHECKS["C02"]["packages"] = ["l1chan", "l2node"]
